@@ -300,7 +300,12 @@ def _placeholder(path):
         out = PATHS[path](PH)
         n = out.count(PH)
         parts = out.split(PH)
-        r = (parts, _tagseq(out), n)
+        try:
+            seq = _tagseq(out)
+        except tokenizer.Forged as f:
+            # the surroundings of a harmless leaf are not markup a tokenizer accepts: reported by check_case for every leaf
+            seq = ("forged", str(f), out[:600])
+        r = (parts, seq, n)
         _PLACE[path] = r
     return r
 
@@ -308,7 +313,14 @@ def _placeholder(path):
 def check_case(ctx, path, s, is_num=False):
     """s is the leaf (str, or a number when is_num)."""
     original = str.__str__(s) if isinstance(s, str) else str(s)   # (a str subclass is the text it holds, whatever its own str() says)
-    parts, tagseq, n = _placeholder(path)
+    try:
+        parts, tagseq, n = _placeholder(path)
+    except Exception as e:
+        ctx.violation("render-raises", "path %s raised %r for a leaf without any special character" % (path, e), {"path": path, "leaf": PH})
+        return
+    if isinstance(tagseq, tuple) and tagseq[:1] == ("forged",):
+        ctx.violation("text-forges-markup", "path %s: the markup around a leaf without any special character is not well formed: %s" % (path, tagseq[1]), {"path": path, "leaf": PH, "output": tagseq[2]})
+        return
     if n == 0:
         ctx.violation("text-leaf-not-emitted", "path %s: a leaf placed as a child does not occur in the output at all" % path, {"path": path, "leaf": original[:300]})
         return
@@ -403,7 +415,10 @@ def _run(ctx):
         _reinstall(ctx)
     paths = list(PATHS)
     for pth in paths:
-        _placeholder(pth)
+        try:
+            _placeholder(pth)
+        except Exception:
+            pass    # reported by check_case (render-raises) for every leaf that goes through this path
     ctx.sample({"path": "between_blocks", "leaf": "<&>", "output": PATHS["between_blocks"]("<&>")})
 
     # 1. every scalar value through the exported html_escape, both tables (sharded by block)
